@@ -1,7 +1,7 @@
 import math
 import string
 
-from construct import Struct, this, Padding, PaddedString, Bytes, Int64ul, Int16ul, Int16sl
+from construct import Struct, this, Padding, PaddedString, Bytes, Int64ul, Int64sl, Int16ul, Int16sl
 import numpy as np
 
 from ..utils.construct_utils import AutoEnum, FixedPointAdapter, construct_message_to_string
@@ -17,7 +17,7 @@ class VersionInfoMessage(MessagePayload):
     MESSAGE_VERSION = 0
 
     VersionInfoMessageConstruct = Struct(
-        "system_time_ns" / Int64ul,
+        "system_time_ns" / Int64sl,
         "fw_version_length" / Int8ul,
         "engine_version_length" / Int8ul,
         "os_version_length" / Int8ul,
@@ -96,7 +96,7 @@ class DeviceIDMessage(MessagePayload):
     _PRINTABLE_CHARS = bytes(string.printable, 'ascii')
 
     DeviceIDMessageConstruct = Struct(
-        "system_time_ns" / Int64ul,
+        "system_time_ns" / Int64sl,
         "device_type" / AutoEnum(Int8ul, DeviceType),
         "hw_id_length" / Int8ul,
         "user_id_length" / Int8ul,
@@ -171,7 +171,7 @@ class EventNotificationMessage(MessagePayload):
     EventNotificationConstruct = Struct(
         "event_type" / AutoEnum(Int8ul, EventType),
         Padding(3),
-        "system_time_ns" / Int64ul,
+        "system_time_ns" / Int64sl,
         "event_flags" / Int64ul,
         "event_description_len_bytes" / Int16ul,
         Padding(2),
